@@ -33,6 +33,8 @@ static void **vf_cb_arg;
 static size_t vf_cb_seen_counter;
 static void cb(void **arg) { vf_cb_calls++; vf_clock++; vf_t_cb = vf_clock; vf_cb_arg = arg; vf_cb_seen_counter = fu.counter.val; }
 
+static size_t f_nc; static void **f_arr; static void (*f_cb)(void **); static ABTI_waitlist f_wl;
+#define FRAME_FU VF_ASSERT(fu.num_compartments == f_nc && fu.array == f_arr && fu.p_callback == f_cb && fu.waitlist.p_head == f_wl.p_head && fu.waitlist.p_tail == f_wl.p_tail && fu.waitlist.futex.val.val == f_wl.futex.val.val, "frame: number of compartments, array pointer, callback and the wait-list words are not written by this routine")
 static void setup(void)
 {
     size_t nc, c; int has_cb;
@@ -41,7 +43,7 @@ static void setup(void)
     fu.counter.val = c;
     fu.array = nc ? arr : NULL;
     fu.p_callback = has_cb ? cb : NULL;
-    vf_fu = &fu;
+    vf_fu = &fu; f_nc = fu.num_compartments; f_arr = fu.array; f_cb = fu.p_callback; f_wl = fu.waitlist;
     vf_lock_held = 0; vf_cb_calls = 0;
     VF_ASSUME(vf_clock < 100 && vf_acquires < 100 && vf_releases < 100 && vf_wl_bcasts < 100 && vf_wl_waits < 100 && vf_publishes < 100);
 }
@@ -77,6 +79,7 @@ void h_future_set(void)
             VF_ASSERT(vf_cb_calls == 0 && vf_wl_bcasts == b0, "not the last set: no callback, no broadcast");
         }
     }
+    FRAME_FU;
     VF_REACH("future_set returns");
     VF_COVER(r == ABT_SUCCESS && c0 + 1 == nc && nc == 3 && fu.p_callback, "last of three with callback");
     VF_COVER(r == ABT_SUCCESS && c0 + 1 < nc, "intermediate");
@@ -100,6 +103,7 @@ void h_future_wait(void)
     VF_ASSERT(r == ABT_SUCCESS && vf_lock_held == 0 && vf_releases == r0 + 1, "lock released exactly once");
     VF_ASSERT(vf_wl_waits == w0 + (c0 < fu.num_compartments ? 1 : 0), "waits iff not full was observed under the lock");
     VF_ASSERT(fu.counter.val == fu.num_compartments, "returns only once the future is ready");
+    FRAME_FU;
     VF_REACH("future_wait returns");
     VF_COVER(c0 < fu.num_compartments, "blocked");
 }
@@ -112,6 +116,7 @@ void h_future_test(void)
     int r = ABT_future_test((ABT_future)&fu, &flag);
     VF_ASSERT(r == ABT_SUCCESS && flag == (c0 == fu.num_compartments ? ABT_TRUE : ABT_FALSE), "ready iff the published counter equals num_compartments");
     VF_ASSERT(fu.counter.val == c0, "test changes nothing");
+    FRAME_FU;
     VF_REACH("future_test returns");
     VF_COVER(flag == ABT_TRUE, "ready"); VF_COVER(flag == ABT_FALSE, "not ready");
 }
@@ -123,5 +128,6 @@ void h_future_reset(void)
     int r = ABT_future_reset((ABT_future)&fu);
     VF_ASSERT(r == ABT_SUCCESS && fu.counter.val == 0 && vf_lock_held == 0 && vf_publishes == p0 + 1, "reset publishes counter 0 under the lock");
     VF_ASSERT(vf_t_acquire < vf_t_publish && vf_t_publish < vf_t_release, "the reset store lies inside one critical section of the future's lock (it cannot fall between the read and the write of a concurrent set)");
+    FRAME_FU;
     VF_REACH("future_reset returns");
 }
